@@ -568,6 +568,7 @@ func runC17(c *Ctx) {
 	// sealed under the right key: a crypto key is selected and used with the manager mutex held, so a concurrent Lock()
 	// cannot zero it between selection and use (C04-R6's rules)
 	checkRandomFillCoversWholeBuffer(c, "C17-R2")
+	checkRandomSourceReadOnlyThroughReadFull(c, "C17-R2")
 	checkSelectedKeyUsedUnderLock(c, "C17-R1")
 	checkLiveKeysUsedUnderLock(c, "C17-R1")
 	checkSaltedHash(c, "C17-R5")
